@@ -193,29 +193,32 @@ func ids(ms []string) string {
 	return strings.Join(s, ".")
 }
 
-// modelWorld renders the world of one cell for `vm_c07 inst` and the class to instantiate.
-func (x InstCase) modelWorld() (string, int) {
-	cls := []string{
+// the shared part of every model world: AB=1 AB2=2 AB2J=3 SA=6 (abstract static sam[7]); interfaces I=8 J=9
+func instBaseWorld() ([]string, string) {
+	return []string{
 		"1,-,-,1," + ids([]string{"cm"}) + "," + ids([]string{"am"}),
 		"2,1,-,1,-," + ids([]string{"am2"}),
 		"3,1,9,1,-," + ids([]string{"am2"}),
-		"6,-,-,1,-,7", // SA: abstract static sam[7]
-	}
-	ifs := "8,-,3;9,8,4"
+		"6,-,-,1,-,7",
+	}, "8,-,3;9,8,4"
+}
+
+// classEntries: the model classes one cell declares (its middle class under id `mid`, its class under `cls`)
+// and the id `new` is applied to.
+func (x InstCase) classEntries(mid, cls int) ([]string, int) {
 	switch x.Spec {
 	case "newAbstract":
-		return strings.Join(cls, ";") + "/" + ifs, 1
+		return nil, 1
 	case "newAbstract2":
-		return strings.Join(cls, ";") + "/" + ifs, 3
+		return nil, 3
 	case "newInterface":
-		return strings.Join(cls, ";") + "/" + ifs, 9
+		return nil, 9
 	case "staticImpl":
-		cls = append(cls, "5,6,-,0,7,-")
-		return strings.Join(cls, ";") + "/" + ifs, 5
+		return []string{fmt.Sprintf("%d,6,-,0,7,-", cls)}, cls
 	case "staticImplMissing":
-		cls = append(cls, "5,6,-,0,-,-")
-		return strings.Join(cls, ";") + "/" + ifs, 5
+		return []string{fmt.Sprintf("%d,6,-,0,-,-", cls)}, cls
 	}
+	var out []string
 	parent := "-"
 	if x.Base > 0 {
 		parent = strconv.Itoa(x.Base)
@@ -228,8 +231,8 @@ func (x InstCase) modelWorld() (string, int) {
 		if x.Mid&2 != 0 {
 			ms = append(ms, "im")
 		}
-		cls = append(cls, fmt.Sprintf("4,%s,-,1,%s,-", parent, ids(ms)))
-		parent = "4"
+		out = append(out, fmt.Sprintf("%d,%s,-,1,%s,-", mid, parent, ids(ms)))
+		parent = strconv.Itoa(mid)
 	}
 	var own []string
 	for i, m := range instMeth {
@@ -241,8 +244,15 @@ func (x InstCase) modelWorld() (string, int) {
 	if x.Ifc > 0 {
 		impl = strconv.Itoa(7 + x.Ifc)
 	}
-	cls = append(cls, fmt.Sprintf("5,%s,%s,0,%s,-", parent, impl, ids(own)))
-	return strings.Join(cls, ";") + "/" + ifs, 5
+	out = append(out, fmt.Sprintf("%d,%s,%s,0,%s,-", cls, parent, impl, ids(own)))
+	return out, cls
+}
+
+// modelWorld renders the world of one cell for `vm_c07 inst` and the class to instantiate.
+func (x InstCase) modelWorld() (string, int) {
+	cls, ifs := instBaseWorld()
+	own, id := x.classEntries(4, 5)
+	return strings.Join(append(cls, own...), ";") + "/" + ifs, id
 }
 
 func instKind(res string) string {
